@@ -176,6 +176,10 @@ def run(ctx) -> None:
     ctx.stats["C05.R1 codec pairs"] = n
     r2_reverse(ctx, nf)
     c02.r4_r5_r7_load(ctx, R4="C05.R3", R5="C05.R3", R7="C05.R6")
+    # (an edge of a foreign document that names no offset is put on the order port the shared helper computes: its table per op class
+    #  decides where such edges land)
+    from .c03 import r5_order_offset
+    r5_order_offset(ctx, rule="C05.R3")
     r4_sugar(ctx, nf)
     c02.r2_single_use_iterators(ctx, rule="C05.R5")
     ctx.rule("C05.R7", "what is written is what the models hold: no dump exclusions, no model configuration that rewrites values (shared with C03.R1 / C17.R3)", floor=60)
